@@ -169,7 +169,8 @@ PROPS = {
         not_decided=["idempotence clause (bounded only)", "arity >= 3 of align_indeterminants, >= 4 of the others (bounded only)"],
     ),
     "C05": dict(level="other", contracts=["numpoly.poly_divmod", "numpoly.get_division_candidate", "numpoly.poly_divide",
-                                          "numpoly.poly_remainder", "numpoly.multiply", "numpoly.where"],
+                                          "numpoly.poly_remainder", "numpoly.multiply", "numpoly.where", "numpoly.zeros", "numpoly.prod",
+                                          "numpoly._prod"],
                 explanation="poly_divmod (real source) is proved at the level of abstract polynomial values in a commutative ring: "
                 "loop invariant dividend0 = quotient*divisor0 + dividend_ for every element (initiation from numpoly.zeros and the "
                 "aligned operands, preservation through add/subtract/where/multiply and the re-alignment, exit through the "
@@ -180,8 +181,9 @@ PROPS = {
                 "poly_divmod on the same operands in order; the operator methods' routing is proved under C08. Termination, and "
                 "the clauses resting on it (constant divisors, exact multiples, degree of the remainder), rounding: bounded run-time "
                 "checks (conc/checks_c05.py: exact-arithmetic oracle, iteration counter, state-repeat detection).",
-                trusted_base=COMMON_TRUSTED + ["get_division_candidate, multiply and where are proved from their source (the clauses the "
-                                               "loop uses); assumed value-level contracts: power/prod in the monomial form, zeros",
+                trusted_base=COMMON_TRUSTED + ["get_division_candidate, multiply, where, zeros, prod (literal axis) and _prod are proved from "
+                                               "their source (the clauses the loop uses); the monomial reading of "
+                                               "prod(indeterminants ** row, 0) combines them with the definition of pmono (B11)",
                                                "contracts of add/subtract (C01), align_polynomials (C04), __getitem__ (C09)"],
                 assumptions=["PV is a commutative ring (ring axioms as hypotheses; MvPolynomial in Mathlib)",
                              "B8: the forced-zero write does not change the polynomial denoted (exact arithmetic)", "A1"],
@@ -236,7 +238,7 @@ PROPS = {
                 not_decided=["where, choose, full, full_like, broadcast_arrays, iteration (bounded only)",
                              "which element numpy places where (numpy semantics: bounded conformance)"]),
     "C10": dict(level="other", contracts=["numpoly.simple_dispatch", "numpoly.sum", "numpoly.cumsum", "numpoly.mean", "numpoly.diff",
-                                          "numpoly.multiply", "numpoly._prod"],
+                                          "numpoly.multiply", "numpoly._prod", "numpoly.prod"],
                 explanation="sum/cumsum/mean are proved to apply numpy.sum/cumsum/mean to every coefficient column of the operand with "
                 "axis/dtype/keepdims forwarded unchanged (contract of simple_dispatch: every column written, rows/names kept); that a "
                 "linear column-wise reduction denotes the finite sum of the elements is bridge B5. diff is proved: the operands "
@@ -244,7 +246,9 @@ PROPS = {
                 "axis forwarded, for every term (first iteration peeled: allocation; loop invariant: definedness), result dtype = "
                 "numpy's promotion. multiply (on which prod, outer, inner, matmul, det are built) is proved at coefficient level "
                 "(C01); _prod, the core of prod, is proved for axis 0 and 1 to return the product of ALL slices along the axis, each "
-                "once, in index order (loop invariant over the multiply contract). prod's axis handling, ediff1d, inner, outer, "
+                "once, in index order (loop invariant over the multiply contract). prod itself is proved, for a literal axis 0 or 1, to be "
+                "exactly one application of _prod to the operand along the requested axis (and, with keepdims, that result with the "
+                "axis put back). prod with axis=None / negative axes / several axes, ediff1d, inner, outer, "
                 "matmul, det (axis/index algebra): bounded run-time checks "
                 "(conc/checks_c10.py).",
                 trusted_base=COMMON_TRUSTED),
